@@ -13,9 +13,38 @@ from vlib.runner import Sub, Violation
 LIMITS = {'quick': dict(max_inputs=5, max_gates=16), 'thorough': dict(max_inputs=6, max_gates=24)}
 
 
+LONG_TYPES = ['NOT', 'IFF', 'AND', 'OR', 'XOR', 'NXOR', 'NAND', 'NOR', 'GEQ', 'LT', 'LIFF', 'RNOT']
+
+
+def long_netlist(n_in, length, seed, input_rate=0.5):
+    """Few inputs, a long body: every gate reads its predecessor, many also an input (often, seldom or only at the two ends) or a much earlier gate, and the
+    top gate reads the first input again (pure function of the three numbers)."""
+    import random
+    rs = random.Random(seed)
+    inputs = [f'x{i}' for i in range(n_in)]
+    gates = [[x, 'INPUT', []] for x in inputs]
+    prev = inputs[-1]
+    for i in range(length):
+        t = rs.choice(LONG_TYPES)
+        if t in ('NOT', 'IFF'):
+            ops = [prev]
+        else:
+            far = rs.choice(inputs) if rs.random() < input_rate or i < 3 else f'g{rs.randrange(0, i)}'
+            ops = [prev, far] if rs.random() < 0.5 else [far, prev]
+        gates.append([f'g{i}', t, ops])
+        prev = f'g{i}'
+    gates.append(['top', rs.choice(['AND', 'XOR', 'OR', 'NOR']), [prev, inputs[0]]])
+    outs = ['top'] + ([f'g{rs.randrange(0, length)}'] if rs.random() < 0.3 else [])
+    return {'inputs': inputs, 'gates': gates, 'outputs': outs, 'style': 'plain'}
+
+
 @st.composite
 def cases(draw, tier):
     lim = LIMITS[tier]
+    if draw(st.integers(0, 15)) == 0:
+        nl = long_netlist(draw(st.integers(1, 3)), draw(st.sampled_from([125, 130, 160, 200, 260, 320])), draw(st.integers(0, 2 ** 32)),
+                          draw(st.sampled_from([0.5, 0.05, 0.0, 0.0])))
+        return {'nl': nl, 'route': draw(gen.routes(nl)), 'sel': draw(st.sampled_from([None, None, [0]])), 'taut': False}
     nl = draw(gen.netlists(min_inputs=0, max_inputs=lim['max_inputs'], max_gates=lim['max_gates'],
                            max_arity=5, wide_arity=13, styles=('plain', 'digits', 'mixed'), max_outputs=4, const_operands=(0, 0, 2, 1),
                            dup_rate=draw(st.sampled_from([0, 2, 3, 4]))))
@@ -82,6 +111,7 @@ def check_tseytin(case):
         raise Violation('bad_literal', 'literal 0 in CNF')
     W = 1 << n
     want = (1 << W) - 1
+    solve = sat.solve_fast if len(nl['gates']) >= 100 else sat.solve
     for o in sel_labels:
         want &= t[o]
     sat_rows = []
@@ -89,7 +119,9 @@ def check_tseytin(case):
     n_sat = n_unsat = 0
     for j in range(W):
         assum = [(i + 1) if (j >> (n - 1 - i)) & 1 else -(i + 1) for i in range(n)]
-        model = sat.solve(clauses, assum)
+        model = solve(clauses, assum)
+        if model is not None and not sat.satisfies(clauses, model):
+            raise RuntimeError('oracle solver returned a model that falsifies a clause')
         exp = bool((want >> j) & 1)
         if (model is not None) != exp:
             raise Violation('equisat',
@@ -102,7 +134,7 @@ def check_tseytin(case):
         sat_rows.append(j)
         # uniqueness of the extension
         block = [(-v if model.get(v, False) else v) for v in gate_vars]
-        if gate_vars and sat.solve(clauses + [block], assum) is not None:
+        if gate_vars and solve(clauses + [block], assum) is not None:
             raise Violation('extension_not_unique', f'row {j:0{n}b}: a second satisfying extension exists')
         for v in gate_vars:
             columns[v].append(model.get(v, False))
@@ -143,6 +175,8 @@ def check_tseytin(case):
     cls.add('sel:' + ('none' if sel is None else 'empty' if not sel else 'sub'))
     if any(ty in ('XOR', 'NXOR') and len(ops) >= 3 for _, ty, ops in nl['gates']):
         cls.add('nary_xor')
+    if len(nl['gates']) >= 128:
+        cls.add('gates>=128')
     nt = len(clauses) > len(sel_idx) and n_sat > 0 and n_unsat > 0
     return {'nt': nt, 'cls': cls, 'key': [nl['inputs'], nl['gates'], nl['outputs'], sel],
             'count': {'rows_sat': n_sat, 'rows_unsat': n_unsat},
@@ -158,9 +192,9 @@ SPEC = {
              'Cnf.from_circuit == tseytin_transformation, is_circuit_satisfiable answer and model. '
              'Non-trivial: >=1 gate clause and both a satisfiable and an unsatisfiable row; distinct by '
              'hash of netlist + selection.'
-             " Added during the build: n-ary gates with up to 13 operands, near-duplicate gates incl. the same ordered operand pair under another type, and every returned formula is written to through add_clause (formulas are the caller's; zero-clause formulas must not share storage)."),
-    'assumptions': ['own DPLL (vlib/sat.py) decides CNF + fixed inputs; z3-backed pysat stand-in used only for is_circuit_satisfiable, its models are re-checked'],
+             " Added during the build: long bodies of 125-320 gates over 1-3 inputs whose top gate reads the first input again, n-ary gates with up to 13 operands, near-duplicate gates incl. the same ordered operand pair under another type, and every returned formula is written to through add_clause (formulas are the caller's; zero-clause formulas must not share storage)."),
+    'assumptions': ['own DPLL (vlib/sat.py) decides CNF + fixed inputs (z3 on the long bodies, whose models are re-checked against the clauses); z3-backed pysat stand-in used only for is_circuit_satisfiable, its models are re-checked'],
     'subs': [Sub('tseytin', cases, check_tseytin, {'quick': 2500, 'thorough': 200000})],
     'required_classes': {'tseytin': ['nary_xor', 'tautological_top', 'sel:sub', 'sel:empty', 'LR_gate',
-                                     'constant', 'cmp_gate', 'dup_operand', 'nary>=9']},
+                                     'constant', 'cmp_gate', 'dup_operand', 'nary>=9', 'gates>=128']},
 }
